@@ -102,6 +102,12 @@ func c10Scripted(c *Ctx) {
 			return true
 		}
 		n := 2 + r.IntN(6)
+		factor := 1
+		if r.IntN(5) == 0 { // configured weights sharing a common factor (10,10,10 / 6,9,3 / 100,100 ...)
+			factor = pick(r, []int{2, 3, 10, 100})
+			confChoices = []int{factor, factor, 2 * factor, 3 * factor}
+			c.Count("pools_with_common_factor", 1)
+		}
 		for k := 0; k < n; k++ {
 			if !upsert(k, pick(r, confChoices)) {
 				return
